@@ -12,13 +12,18 @@ REQUIRED = ['getNBest_scale', 'plurality_scale', 'highestAverages_scale', 'sumVa
             'equal_rationals_tied',
             'relativeThreshold_scale', 'quotaDistributor_scale', 'largestRemainder_scale',
             'rankedToPositional_linear', 'approvalToSimple_linear', 'rankedToCondorcet_linear', 'positionalRule_scale',
-            'approvalRule_scale']
+            'approvalRule_scale', 'condorcetEv_scale', 'condorcetSet_scale', 'rankedToCondorcetVotes_linear',
+            'condorcetRule_scale', 'condorcetSetRule_scale', 'benham_scale', 'tideman_scale']
 # families whose scale invariance is proved in Lean (Props/C11.lean); the rest is covered by the oracle only
 PROVED_FAMILIES = ['plurality', 'ha_d_hondt', 'ha_sainte_lague', 'ha_imperiali', 'ha_danish', 'ha_macau', 'quota_selector_hare',
                    'rel_threshold_5pc', 'rel_threshold_third',
                    'lr_hare', 'lr_hagenbach_bischoff', 'lr_imperiali', 'qd_hare',
                    'positional_borda', 'positional_borda0', 'positional_dowdall', 'positional_geometric',
-                   'positional_modified_borda', 'positional_fixed_top3', 'approval_av', 'approval_sav']
+                   'positional_modified_borda', 'positional_fixed_top3', 'approval_av', 'approval_sav',
+                   'condorcet_rankedpairs_winvotes', 'condorcet_rankedpairs_margins', 'condorcet_rankedpairs_pwo',
+                   'condorcet_copeland_2o', 'condorcet_copeland_raw', 'condorcet_schulze', 'condorcet_kemeny_young',
+                   'condorcet_minimax_winvotes', 'condorcet_minimax_margins', 'condorcet_minimax_pwo',
+                   'condorcet_winner', 'smith_set', 'schwartz_set', 'benham', 'tideman_alternative']
 MULTIPLIERS = [2, 3, 7, 10 ** 6, 10 ** 25 + 7]
 SMALL_MULTIPLIERS = [2, 3, 7]
 NAMES = Names(prefix='cand')
@@ -32,6 +37,16 @@ SCORERS = {'positional_borda': {'s': 'Borda', 'base': 1}, 'positional_borda0': {
 def enc_ranked(prof):
     """families.py ranked profile -> the C13 driver encoding (shared rank = {"set": [...]})"""
     return [[[({'set': it} if isinstance(it, list) else it) for it in b], w] for b, w in prof]
+
+
+def pairwise_of(prof):
+    """the pairwise dictionary the real RankedToCondorcetVotes() makes of a (protocol) ranked profile, insertion order kept"""
+    import votelib.convert as cv
+    d = cv.RankedToCondorcetVotes().convert(fam_mod.build('ranked', prof, NAMES))
+    return [[NAMES.i(a), NAMES.i(b), num_str(c)] for (a, b), c in d.items()]
+
+
+CONDORCET_SETS = {'condorcet_winner': 'winner', 'smith_set': 'smith', 'schwartz_set': 'schwartz'}
 
 
 def enc_approval(prof):
@@ -201,6 +216,13 @@ def model_line(case):
             return {'op': 'c11_positional', 'scorer': SCORERS[f], 'votes': enc_ranked(prof), 'n': case['n']}
         if f in ('approval_av', 'approval_sav'):
             return {'op': 'c11_approval', 'split': f == 'approval_sav', 'votes': enc_approval(prof), 'n': case['n']}
+        if f in CONDORCET_SETS or f.startswith('condorcet_'):
+            name = CONDORCET_SETS.get(f) or f[len('condorcet_'):]
+            return {'op': 'c11_condorcet', 'name': name, 'profile': prof, 'votes': pairwise_of(prof), 'n': case['n']}
+        if f in ('benham', 'tideman_alternative'):
+            if case['n'] != 1:
+                return None          # the C05 models are the single-winner evaluators
+            return {'op': 'benham' if f == 'benham' else 'tideman', 'profile': prof}
         if f.startswith('lr_') or f.startswith('qd_'):
             return {'op': f[:2], 'quota': f[3:], 'accept_equal': True, 'on_overaward': 'error', 'n': case['n'], 'votes': prof,
                     'prev': [], 'max': []}
@@ -217,6 +239,9 @@ def model_line(case):
 
 def compare(case, iobs, mobs):
     got = iobs['scaled'] if case['op'] == 'scale' else iobs
+    if isinstance(mobs, dict) and 'res' in mobs and 'grp' in mobs:      # second-order Copeland: the C05 canonicalisation
+        from props import C05
+        return C05.compare({'op': 'eval', 'name': 'copeland_2o'}, got, mobs)
     if isinstance(mobs, dict) and 'sel' in mobs and 'keys' in mobs:
         if isinstance(got, dict):
             return f'impl={json.dumps(got)} model={json.dumps(mobs["sel"])}'
